@@ -27,12 +27,17 @@ def gen_case(rng):
     t = 0
     pings = 0
     kinds = set()
-    last_tick_idle = False
+    failing = rng.random() < 0.4     # does this history contain failing sends?
+    sent_fail = False
     for _ in range(rng.randrange(4, 22)):
         gap = rng.choice([1, 1, period // 2, period - 1, period, period + 1, period + 2, 2 * period + 1])
         t += gap
         r = rng.random()
-        if r < 0.55:
+        if r < 0.55 and n != "-" and level != "tcp" and failing and rng.random() < 0.35:
+            lines.append("tickf %d" % t)     # a housekeeping tick while the network refuses to send
+            kinds.add("tick-send-fails")
+            sent_fail = True
+        elif r < 0.55:
             lines.append("tick %d" % t)
             kinds.add("tick-gap-" + ("eq" if gap == period else "lt" if gap < period else "gt"))
             if rng.random() < 0.3:          # a second tick right after (counter advances per tick)
@@ -41,10 +46,15 @@ def gen_case(rng):
                 kinds.add("double-tick")
             pings += 1                      # upper bound of generations that may exist
         elif r < 0.8:
-            lines.append("recv %d" % t)
-            kinds.add("recv")
+            if rng.random() < 0.6:
+                k = rng.choice(["ping", "ack", "rst", "non"])
+                lines.append("recvk %s %d" % (k, t))
+                kinds.add("recv-" + k)
+            else:
+                lines.append("recv %d" % t)
+                kinds.add("recv")
         else:
-            if n != "-" and pings > 0:
+            if n != "-" and pings > 0 and not sent_fail:
                 g = rng.choice([pings, max(1, pings - 1), rng.randrange(1, pings + 2)])
                 lines.append("pong %d %d" % (g, t))
                 kinds.add("pong")
@@ -61,8 +71,18 @@ def strip_level(l):
 
 
 def no_cancel(line):
-    parts = [p for p in line.split(" ; ") if not p.startswith("cancelping")]
+    """what is observable on a connection: no cancellation marks, no failed attempts, pings unnumbered"""
+    parts = [("ping" if p.startswith("ping ") else p) for p in line.split(" ; ") if not p.startswith("cancelping") and not p.startswith("pingfail")]
     return " ; ".join(parts) if parts else "none"
+
+
+def judge_view(o):
+    parts = [p for p in o.split(" ; ") if not p.startswith("cancelping")]
+    return " ; ".join(parts) if parts else "none"
+
+
+def conn_view(o):
+    return no_cancel(o)
 
 
 def explore(ctx, art):
@@ -103,7 +123,7 @@ def explore(ctx, art):
     dl = [strip_level(l) for l in lines]
     if art.get("driver"):
         rc, model, _ = common.pipe_lines([art["driver"], "model"], dl)
-        jl = [l if l.split()[0] in ("cfg", "end") else l + " | " + ("none" if o == "skipped" else no_cancel(o)) for l, o in zip(dl, impl)]
+        jl = [l if l.split()[0] in ("cfg", "end") else l + " | " + ("none" if o == "skipped" else judge_view(o)) for l, o in zip(dl, impl)]
         rc2, judge, _ = common.pipe_lines([art["driver"], "judge"], jl)
         if rc or rc2 or len(model) != len(lines) or len(judge) != len(lines):
             ctx.broken.append(("model", "C18 driver run failed", ""))
@@ -125,7 +145,7 @@ def explore(ctx, art):
             bad.setdefault(ci, (i, "%s: observed `%s`: %s" % (l, o, judge[i])))
         if model is not None:
             m = model[i] if level == "unit" else no_cancel(model[i])
-            if m != o:
+            if m != (o if level == "unit" else conn_view(o)):
                 mism += 1
                 if mism <= 3:
                     ctx.broken.append(("correspondence", "C18 model vs implementation",
